@@ -63,7 +63,35 @@ def run_seed(prop, seed, repo="/repo"):
         # (facts are keyed by content; pruning keeps the cache small)
 
 
+def benign_seeds(prop):
+    """behaviour-preserving refactorings kept under benign/<prop>/ (written by sub-agents that saw only the property text):
+    the property's check must stay silent on each of them"""
+    d = os.path.join(VERIF, "benign", prop)
+    out = []
+    if os.path.isdir(d):
+        for n in sorted(os.listdir(d)):
+            if n.endswith(".diff"):
+                out.append({"name": "benign-" + n[:-5], "what": "behaviour-preserving refactoring benign/%s/%s" % (prop, n),
+                            "patch": os.path.join("benign", prop, n), "expect": "^$", "silent": True})
+    return out
+
+
+def finish_silent(res):
+    """a benign seed is fine when the check reports nothing on it"""
+    if res["status"] in ("skipped", "build-failed"):
+        return res
+    res["status"] = "silent" if not res.get("reported") else "FALSE-ALARM"
+    return res
+
+
 def run_for(chk, prop, only=None):
+    for s in benign_seeds(prop):
+        if only and s["name"] != only:
+            continue
+        res = finish_silent(run_seed(prop, s))
+        chk.selftests.append(res)
+        if res["status"] == "FALSE-ALARM":
+            sys.stderr.write("SELFTEST-FALSE-ALARM property=%s seed=%s reported %s\n" % (prop, s["name"], res.get("reported")))
     seeds = load_seeds().get(prop, [])
     for s in seeds:
         if only and s["name"] != only:
@@ -79,6 +107,13 @@ if __name__ == "__main__":
     only = sys.argv[2] if len(sys.argv) > 2 else None
     seeds = load_seeds().get(prop, [])
     bad = 0
+    for s in benign_seeds(prop):
+        if only and s["name"] != only:
+            continue
+        res = finish_silent(run_seed(prop, s))
+        print(json.dumps(res)[:600])
+        if res["status"] != "silent":
+            bad += 1
     for s in seeds:
         if only and s["name"] != only:
             continue
